@@ -879,7 +879,7 @@ func ComparisonExpr(query *Query, current Map, expr *sqlparser.ComparisonExpr, o
 			}
 			return !rs, nil
 		}
-	case sqlparser.InOp:
+	case sqlparser.InOp, sqlparser.NotInOp:
 		{
 			if right == nil {
 				return false, EXPECTATION_FAILED.Extend("failed to build `IN` expreesion. right side value is nil")
@@ -888,6 +888,8 @@ func ComparisonExpr(query *Query, current Map, expr *sqlparser.ComparisonExpr, o
 			if !ok {
 				return false, INVALID_TYPE.Extend(fmt.Sprintf("failed to build `IN` expression. expected an array but found %T", right))
 			}
+			// NOT IN is the complement of IN, over a list as well as over the rows of a subquery
+			found := false
 			for _, value := range rightArray {
 				switch value := value.(type) {
 				case Map:
@@ -897,7 +899,7 @@ func ComparisonExpr(query *Query, current Map, expr *sqlparser.ComparisonExpr, o
 								value = *v
 							}
 							if compare.Compare(leftValue, value) == 0 {
-								return true, nil
+								found = true
 							}
 							break
 						}
@@ -908,31 +910,15 @@ func ComparisonExpr(query *Query, current Map, expr *sqlparser.ComparisonExpr, o
 							value = *v
 						}
 						if compare.Compare(leftValue, value) == 0 {
-							return true, nil
+							found = true
 						}
 					}
 				}
-			}
-			return false, nil
-		}
-	case sqlparser.NotInOp:
-		{
-			if right == nil {
-				return false, EXPECTATION_FAILED.Extend("failed to build `NOT IN` expreesion. right side value is nil")
-			}
-			rightArray, ok := (right).([]any)
-			if !ok {
-				return false, INVALID_TYPE.Extend(fmt.Sprintf("failed to build `IN` expression. expected an array but found %T", right))
-			}
-			for _, value := range rightArray {
-				if v, ok := value.(*float64); ok {
-					value = *v
-				}
-				if compare.Compare(leftValue, value) == 0 {
-					return false, nil
+				if found {
+					break
 				}
 			}
-			return true, nil
+			return found == (expr.Operator == sqlparser.InOp), nil
 		}
 	default:
 		{
